@@ -324,7 +324,7 @@ def finish(pid, tier, seed, level, cases, *, rule, t0, assumptions=None, extra_c
         path = os.path.join(REPLAY, f"{pid}-{hashlib.sha1(sig.encode()).hexdigest()[:10]}.json")
         rp = {"property": pid, "signature": sig, "seed": seed, "tier": tier, "case": c.idx, "engine": c.engine,
               "desc": c.desc, "observed": c.obs, "detail": c.detail, "occurrences_this_run": len(cs)}
-        if c.engine.startswith("LD_PRELOAD"):
+        if c.engine.startswith("LD_PRELOAD") or "LD_PRELOAD" in c.engine:
             from checks import common_hook
             rp["replay"] = common_hook.replay_cmd(c, seed)
         elif replay_builder:
